@@ -49,6 +49,9 @@ def run(ctx):
         rule_flush_pairing(ctx, "C12.O", fw, "oligocgr::vectorise")
         c11.point_text(ctx, "C12.T", fw, "oligocgr::vectorise", "({},{},{})", 3)
     c03.maps_rules(dep(ctx, "C12", "C03"), "C03")
+    # (x, y) is the chaos-game end point at the requested square size: corner table, centre and constructor of this copy
+    c11.table_rule(dep(ctx, "C12", "C11"), "C11.T", c11.MAPS[1])
+    c11.ctor_rule(dep(ctx, "C12", "C11"), "C11.C", "composition::oligocgr::OligoCgrComputer::new", ADT)
     fsn = ctx.need("C12.O", "composition::oligocgr::OligoCgrComputer::set_norm")
     if fsn is not None:
         ws = [n for n in fsn.nodes if n.get("k") in ("assign", "assignop")]
